@@ -330,6 +330,24 @@ def run(ctx):
     nq = (len(addr58), len(bech), len(wifs), len(xkeys)) if T else (4, 6, 3, 2)
     sweep_addr58(addr58[:nq[0]], True)
     sweep_bech(bech[:nq[1]], True)
+    # every (witness version, program length) with a VALID checksum of the right kind: only the lengths BIP141/173/350 allow may decode;
+    # plus the known Bech32 insertion weakness (q's before a final p keep the checksum valid)
+    cases = []
+    for hrp in ('bc', 'tb', 'ltc'):
+        for witver in (0, 1, 2, 16):
+            for ln in list(range(1, 42)) + [64, 65]:
+                prog = bytes(rng.randrange(256) for _ in range(ln))
+                sgw = segwit_enc_ref(hrp, witver, prog)
+                cases.append(('segwit_dec ' + sgw, py_segwit(sgw), True))
+                r = py_address_case(sgw)
+                if r is not None:
+                    cases.append(('address ' + sgw, r, True))
+    for sgw in [b for b in bech if b.endswith('p')][:6] + [segwit_enc_ref('bc', 0, bytes(19) + b'\x01')]:
+        if sgw.endswith('p'):
+            for k in range(1, 21):
+                m = sgw[:-1] + 'q' * k + 'p'
+                cases.append(('segwit_dec ' + m, py_segwit(m), True))
+    ctx.compare(cases, 'lengths', refusal_ok=True)
     sweep_b58check(wifs[:nq[2]], 'wif', True, 0)
     sweep_b58check(xkeys[:nq[3]], 'xkey', T, 1500)
     # every valid string of every class once, plus sampled mutants, so that all networks/prefixes are touched
